@@ -424,7 +424,7 @@ func c01Scenario(u *Unit, name string, sh c01Shape, fault *c01Fault) (*Tracker, 
 		case "auto_crash":
 			s.W.Crash(master)
 		case "auto_rofs":
-			_ = os.WriteFile(s.Dir+"/"+master+".ro", []byte("true"), 0o644)
+			s.SetROFS(master, true)
 		}
 		// run until the request is gone and things were quiet for a while, at most 8 virtual minutes
 		deadline := time.Now().Add(8 * time.Minute)
